@@ -97,6 +97,24 @@ pub fn run(rng: &mut Rng, n: usize, rep: &mut Report) {
                     cache.update_from_panic_state(&s, now);
                     hist.push(format!("+{} propagate", dt));
                     rep.bump("propagate");
+                    // right after a propagation the group's gate IS the global pause: it blocks at a time t >= now exactly when
+                    // the global pause is in force at t. In particular a pause that has run out globally stops blocking the
+                    // group's users (nobody has to act on the group beyond the permissionless crank that just ran)
+                    let mut probes = vec![now, now + 1, s.pause_start_timestamp + 1799, s.pause_start_timestamp + 1800, s.pause_start_timestamp + 1801, cache.pause_start_timestamp + 1799, cache.pause_start_timestamp + 1800, now + 3599, now + 3600];
+                    // (a gate that still BLOCKS after the global pause ran out is reported in preference to one that is open too early)
+                    probes.sort_by_key(|p| !(cache.is_paused_flag() && !cache.is_expired(*p)));
+                    for probe in probes {
+                        if probe < now { continue; }
+                        let gate = cache.is_paused_flag() && !cache.is_expired(probe);
+                        let global = s.is_paused_flag() && probe < s.pause_start_timestamp + 1800;
+                        if gate != global {
+                            rep.fail(format!(
+                                "right after propagate_fee at {} the group's gate at time {} is {} but the global pause [flag {}, start {}] {} in force then (cache: flag {}, start {}); hist {:?}",
+                                now, probe, if gate { "BLOCKING" } else { "open" }, s.is_paused_flag(), s.pause_start_timestamp, if global { "IS" } else { "is NOT" }, cache.is_paused_flag(), cache.pause_start_timestamp, hist
+                            ));
+                            break;
+                        }
+                    }
                 }
             }
             // state predicates, after every op
